@@ -215,6 +215,24 @@ func RunReach(t *testing.T, rc *ReachCase) *ReachResult {
 					canOK = true
 				}
 			}
+			// distinguishing feature for signatures: are the answering candidates only seeds that an
+			// earlier call set aside as dead (bridge dump "D[addr,…]")?
+			dump := sarama.VerifClientDump(client)
+			deadList := ""
+			if i := strings.LastIndex(dump, "D["); i >= 0 {
+				deadList = dump[i+2:]
+			}
+			onlyDeadSeeds := mustOK
+			for _, a := range addrs {
+				if s.behav(a) == BAnswer && !strings.Contains(deadList, a+",") {
+					onlyDeadSeeds = false
+				}
+			}
+			for _, b := range known {
+				if s.behav(b.Addr) == BAnswer {
+					onlyDeadSeeds = false
+				}
+			}
 			nd, nr := len(s.DialLog()), len(s.ReqLog())
 			var rerr error
 			done = false
@@ -238,8 +256,11 @@ func RunReach(t *testing.T, rc *ReachCase) *ReachResult {
 						who = "seed"
 					}
 				}
-				res.Viol = append(res.Viol, Violation{fmt.Sprintf("RefreshMetadata:fails-although-a-%s-answers refresh#%d rm=%d", who, k+1, rc.RM),
-					fmt.Sprintf("RefreshMetadata #%d returned %q although a %s answers (behaviours %s over seeds 1..%d + brokers 1..%d; client knew brokers %v)", k+1, rerr, who, beh, len(rc.Seeds), rc.Known, known)})
+				if onlyDeadSeeds {
+					who = "seed-set-aside-as-dead-by-an-earlier-refresh"
+				}
+				res.Viol = append(res.Viol, Violation{fmt.Sprintf("RefreshMetadata:fails-although-a-%s-answers rm=%d", who, rc.RM),
+					fmt.Sprintf("RefreshMetadata #%d returned %q although a %s answers (behaviours %s over seeds 1..%d + brokers 1..%d; client knew brokers %v; client state before the call %s)", k+1, rerr, who, beh, len(rc.Seeds), rc.Known, known, dump)})
 				res.Outcome += " refresh:fail!"
 			case !canOK && rerr == nil:
 				res.Viol = append(res.Viol, Violation{"RefreshMetadata:succeeds-although-nobody-answers", fmt.Sprintf("RefreshMetadata #%d returned nil although no seed and no broker answers: %s", k+1, beh)})
